@@ -90,6 +90,12 @@ func Inventory(dir string) ([]string, error) {
 						keys = append(keys, cd.key)
 					}
 				}
+				// package-level types (a struct type that is not listed is a new grouping of values)
+				if gd, ok := d.(*ast.GenDecl); ok && gd.Tok == token.TYPE {
+					for _, sp := range gd.Specs {
+						keys = append(keys, "type:"+p.PkgPath+"."+sp.(*ast.TypeSpec).Name.Name)
+					}
+				}
 			}
 		}
 	}
@@ -124,6 +130,9 @@ func sigText(p *packages.Package, fd *ast.FuncDecl) string {
 
 // invSig: function key -> signature text recorded in the inventory ("" when the inventory has none).
 var invSig = map[string]string{}
+
+// invKeys: the inventory read by the last Normalize (functions, closures, "type:" entries).
+var invKeys = map[string]bool{}
 
 func readInventory(path string) (map[string]bool, error) {
 	f, err := os.Open(path)
@@ -162,15 +171,46 @@ func closureDefs(p *packages.Package, fd *ast.FuncDecl) []*newFunc {
 	if fd.Body == nil {
 		return nil
 	}
+	type cdef struct {
+		id   *ast.Ident
+		lit  *ast.FuncLit
+		stmt ast.Stmt
+	}
+	var defs []cdef
 	ast.Inspect(fd.Body, func(n ast.Node) bool {
-		as, ok := n.(*ast.AssignStmt)
-		if !ok || as.Tok != token.DEFINE || len(as.Lhs) != len(as.Rhs) {
-			return true
+		switch x := n.(type) {
+		case *ast.AssignStmt:
+			if x.Tok != token.DEFINE || len(x.Lhs) != len(x.Rhs) {
+				return true
+			}
+			for li := range x.Lhs {
+				id, ok := x.Lhs[li].(*ast.Ident)
+				lit, ok2 := x.Rhs[li].(*ast.FuncLit)
+				if ok && ok2 {
+					defs = append(defs, cdef{id, lit, x})
+				}
+			}
+		case *ast.DeclStmt:
+			// var name T = func(...) {...} (the form the x/tools inliner binds function-typed arguments in)
+			if gd, isGD := x.Decl.(*ast.GenDecl); isGD && gd.Tok == token.VAR {
+				for _, sp := range gd.Specs {
+					vs := sp.(*ast.ValueSpec)
+					if len(vs.Names) == len(vs.Values) {
+						for li := range vs.Names {
+							if lit, isLit := vs.Values[li].(*ast.FuncLit); isLit {
+								defs = append(defs, cdef{vs.Names[li], lit, x})
+							}
+						}
+					}
+				}
+			}
 		}
-		for li := range as.Lhs {
-			id, ok := as.Lhs[li].(*ast.Ident)
-			lit, ok2 := as.Rhs[li].(*ast.FuncLit)
-			if !ok || !ok2 || id.Name == "_" {
+		return true
+	})
+	for _, d := range defs {
+		{
+			id, lit, as := d.id, d.lit, d.stmt
+			if id.Name == "_" {
 				continue
 			}
 			obj := p.TypesInfo.Defs[id]
@@ -191,7 +231,14 @@ func closureDefs(p *packages.Package, fd *ast.FuncDecl) []*newFunc {
 				if !isId || p.TypesInfo.Uses[u] != obj {
 					return true
 				}
-				parent := stack[len(stack)-2]
+				pi := len(stack) - 2
+				for pi > 0 {
+					if _, isParen := stack[pi].(*ast.ParenExpr); !isParen {
+						break
+					}
+					pi--
+				}
+				parent := stack[pi]
 				if as2, isAs := parent.(*ast.AssignStmt); isAs && len(as2.Lhs) == 1 && len(as2.Rhs) == 1 {
 					if b, isB := as2.Lhs[0].(*ast.Ident); isB && b.Name == "_" {
 						return true // `_ = name`: the keep-alive the normaliser itself inserts
@@ -212,8 +259,7 @@ func closureDefs(p *packages.Package, fd *ast.FuncDecl) []*newFunc {
 			}
 			out = append(out, &newFunc{key: FuncKey(p.PkgPath, fd) + "$" + id.Name, pkg: p, decl: &ast.FuncDecl{Name: id, Type: lit.Type, Body: lit.Body}, obj: obj, closure: true, defStmt: as})
 		}
-		return true
-	})
+	}
 	return out
 }
 
@@ -240,9 +286,6 @@ func findNew(pkgs []*packages.Package, inv map[string]bool) []*newFunc {
 				}
 				obj, _ := p.TypesInfo.Defs[fd.Name].(*types.Func)
 				if obj == nil {
-					continue
-				}
-				if fd.Type.TypeParams != nil {
 					continue
 				}
 				recursive := false
@@ -274,6 +317,7 @@ func Normalize(dir, inventoryPath string) (out string, notes []string, cleanup f
 	if err != nil {
 		return dir, nil, cleanup, fmt.Errorf("function inventory: %w", err)
 	}
+	invKeys = inv
 	pkgs, err := loadSyntax(dir)
 	if err != nil {
 		// let the main load report the error
@@ -531,6 +575,11 @@ func Normalize(dir, inventoryPath string) (out string, notes []string, cleanup f
 			delete(inlined, k)
 		}
 	}
+	if len(inlined) > 0 {
+		if err := dropDeadClosures(tmp); err != nil {
+			return dir, nil, cleanup, err
+		}
+	}
 	for k := range inlined {
 		kept := false
 		for site := range gaveUp {
@@ -556,7 +605,7 @@ func Normalize(dir, inventoryPath string) (out string, notes []string, cleanup f
 		notes = append(notes, "functions not in the frozen inventory were inlined into their callers before analysis: "+strings.Join(keys, ", "))
 	}
 	if len(tkeys) > 0 {
-		notes = append(notes, "loops over constant local tables were unrolled before analysis: "+strings.Join(tkeys, ", "))
+		notes = append(notes, "local operand tables and grouping structs were normalised before analysis: "+strings.Join(tkeys, ", "))
 	}
 	if len(failed) > 0 {
 		sort.Strings(failed)
@@ -569,8 +618,138 @@ func Normalize(dir, inventoryPath string) (out string, notes []string, cleanup f
 	return tmp, notes, cleanup, nil
 }
 
+// dropDeadClosures removes `name := func(...) {...}` definitions (and the `_ = name` markers) of closure variables
+// that nothing uses any more once their calls have been inlined: a literal that is never called has no effect, but
+// it still captures variables, which would keep them in memory cells instead of registers for the analysis.
+func dropDeadClosures(tmp string) error {
+	pkgs, err := loadSyntax(tmp)
+	if err != nil {
+		return nil // the rounds left the tree as the main load will see it
+	}
+	saved := map[string][]byte{}
+	for _, p := range pkgs {
+		for i, f := range p.Syntax {
+			filename := p.CompiledGoFiles[i]
+			if strings.HasSuffix(filename, "_test.go") {
+				continue
+			}
+			var edits []textEdit
+			for _, d := range f.Decls {
+				fd, ok := d.(*ast.FuncDecl)
+				if !ok || fd.Body == nil {
+					continue
+				}
+				ast.Inspect(fd.Body, func(n ast.Node) bool {
+					var id *ast.Ident
+					var as ast.Node
+					switch x := n.(type) {
+					case *ast.AssignStmt:
+						if x.Tok != token.DEFINE || len(x.Lhs) != 1 || len(x.Rhs) != 1 {
+							return true
+						}
+						i, ok := x.Lhs[0].(*ast.Ident)
+						if _, isLit := x.Rhs[0].(*ast.FuncLit); !ok || !isLit {
+							return true
+						}
+						id, as = i, x
+					case *ast.DeclStmt:
+						gd, isGD := x.Decl.(*ast.GenDecl)
+						if !isGD || gd.Tok != token.VAR {
+							return true
+						}
+						for _, sp := range gd.Specs {
+							vs := sp.(*ast.ValueSpec)
+							if len(vs.Names) == 1 && len(vs.Values) == 1 {
+								if _, isLit := vs.Values[0].(*ast.FuncLit); isLit && id == nil {
+									id, as = vs.Names[0], vs
+									if !gd.Lparen.IsValid() {
+										as = x
+									}
+								}
+							}
+						}
+						if id == nil {
+							return true
+						}
+					default:
+						return true
+					}
+					if id.Name == "_" {
+						return true
+					}
+					obj := p.TypesInfo.Defs[id]
+					if obj == nil {
+						return true
+					}
+					var markers []*ast.AssignStmt
+					dead := true
+					var stack []ast.Node
+					ast.Inspect(fd.Body, func(m ast.Node) bool {
+						if m == nil {
+							stack = stack[:len(stack)-1]
+							return true
+						}
+						stack = append(stack, m)
+						u, isId := m.(*ast.Ident)
+						if !isId || p.TypesInfo.Uses[u] != obj {
+							return true
+						}
+						if as2, isAs := stack[len(stack)-2].(*ast.AssignStmt); isAs && len(as2.Lhs) == 1 && len(as2.Rhs) == 1 && as2.Rhs[0] == ast.Expr(u) {
+							if b, isB := as2.Lhs[0].(*ast.Ident); isB && b.Name == "_" {
+								markers = append(markers, as2)
+								return true
+							}
+						}
+						dead = false
+						return true
+					})
+					if !dead || len(markers) == 0 {
+						return true // still used, or not one of ours (an unused variable would not compile anyway)
+					}
+					off := func(pos token.Pos) int { return p.Fset.Position(pos).Offset }
+					edits = append(edits, textEdit{off(as.Pos()), off(as.End()), ""})
+					for _, mk := range markers {
+						edits = append(edits, textEdit{off(mk.Pos()), off(mk.End()), ""})
+					}
+					return false
+				})
+			}
+			if len(edits) == 0 {
+				continue
+			}
+			content, err := os.ReadFile(filename)
+			if err != nil {
+				return err
+			}
+			saved[filename] = content
+			if err := os.WriteFile(filename, []byte(applyEdits(content, 0, edits)), 0o644); err != nil {
+				return err
+			}
+		}
+	}
+	if len(saved) == 0 {
+		return nil
+	}
+	if _, err := loadSyntax(tmp); err != nil {
+		for fn, c := range saved {
+			if werr := os.WriteFile(fn, c, 0o644); werr != nil {
+				return werr
+			}
+		}
+	}
+	return nil
+}
+
 func calleeIdent(call *ast.CallExpr) *ast.Ident {
-	switch fun := ast.Unparen(call.Fun).(type) {
+	f := ast.Unparen(call.Fun)
+	// explicit instantiation f[T](…)
+	switch ix := f.(type) {
+	case *ast.IndexExpr:
+		f = ast.Unparen(ix.X)
+	case *ast.IndexListExpr:
+		f = ast.Unparen(ix.X)
+	}
+	switch fun := f.(type) {
 	case *ast.Ident:
 		return fun
 	case *ast.SelectorExpr:
